@@ -469,6 +469,11 @@ func (fc *FuncCtx) evalSelector(st *State, x *ast.SelectorExpr) Term {
 		fc.fail(x, "method value %s", exprStr(x))
 	}
 	base := fc.eval(st, x.X)
+	if base.Static != nil {
+		if t, ok := fc.staticField(base, x.Sel.Name, fc.typeOf(x)); ok {
+			return t
+		}
+	}
 	fc.lockCheck(st, x, "R", x)
 	return fc.selectPath(st, base, sel, x)
 }
@@ -1055,6 +1060,9 @@ func (fc *FuncCtx) evalAs(st *State, e ast.Expr, target types.Type) Term {
 }
 
 func (fc *FuncCtx) convertImplicit(st *State, v Term, target types.Type) Term {
+	if v.Static != nil {
+		return Term{S: v.S, T: target, Const: v.Const, Static: v.Static} // statically known reflect value: kept as is
+	}
 	if target == nil {
 		return v
 	}
